@@ -600,12 +600,15 @@ class Inliner:
                 fi.node = new
                 self.prog._by_node[id(new)] = fi
                 fi._assigns = None
-                # nested closures were re-created by the deep copy: re-index them
+                # nested closures were re-created by the deep copy: re-index them; closures that came in with an expanded helper
+                # are new nested functions of this function
                 for sub in self.prog._nested_defs(new):
                     if isinstance(sub, (ast.FunctionDef, ast.AsyncFunctionDef)) and sub.name in fi.nested:
                         nf = fi.nested[sub.name]
                         nf.node = sub
                         self.prog._by_node[id(sub)] = nf
+                    elif isinstance(sub, (ast.FunctionDef, ast.AsyncFunctionDef)):
+                        self.prog._index_stmt(fi.module, sub, None, fi)
         # helpers whose every use was expanded are absorbed by their callers: they are not analysed on their own
         for q in unknown:
             h = self.prog.functions[q]
